@@ -217,6 +217,7 @@ def run_special(arg):
         Species._replacement.update(cfg["replacement"])
     kw = cfg["kwargs"]
     gs = kw.get("grain_symbol", "GRAIN")
+    pre_ = kw.get("surface_prefix", "#")
     viols = []
     n = 0
     with quiet():
@@ -284,6 +285,17 @@ def run_special(arg):
                     except Exception:
                         continue
                     viols.append((f"C08:leading-count-accepted:{cfgname}:{'surface' if pre else 'gas'}", f"[{cfgname}] Species({name!r}) is accepted (element_count={dict(sp.element_count)}) although the leading {d!r} is the count of no symbol", {"config": cfgname, "name": name}))
+        # the same molecule on two surface groups (grain populations) is two species
+        for a in syms[:6]:
+            for g1, g2 in (("", "2"), ("2", "10"), ("1", "12")):
+                n += 1
+                try:
+                    s1, s2 = Species(pre_ + g1 + a, **kw), Species(pre_ + g2 + a, **kw)
+                except Exception:
+                    continue
+                if s1 == s2 or not (s1 != s2):
+                    viols.append((f"C08:surface-groups-equal:{cfgname}", f"[{cfgname}] Species({pre_ + g1 + a!r}) == Species({pre_ + g2 + a!r}) although their surface groups are {s1._surface_group} and {s2._surface_group}", {"config": cfgname, "name": pre_ + g1 + a}))
+                    break
         # a charge sign is only legal at the end of the name: sign followed by a count must not be read as a count
         for a in syms[:6]:
             for sign in ("+", "-"):
